@@ -10,8 +10,11 @@ import (
 	"encoding/json"
 	"flag"
 	"fmt"
+	"io"
 	"log"
 	"os"
+	"reflect"
+	"strconv"
 	"strings"
 	"sync"
 	"time"
@@ -209,6 +212,126 @@ func runN2N(tier string, shard int) partResult {
 	return res
 }
 
+// runN2NFilters: --require-json-field / --require-json-value / --whitelist-json-field. Every
+// configuration x every message shape through the real HandleMessage into one healthy
+// destination; a message that matches the filter must arrive (whitelisted to exactly the
+// requested fields), one that does not must not - and either way it is answered.
+func runN2NFilters() partResult {
+	res := partResult{Outcomes: map[string]int{}, Extra: map[string]int{}}
+	srv := fakensqd.New()
+	defer srv.Close()
+	prod, _ := nsq.NewProducer(srv.Addr(), nsq.NewConfig())
+	prod.SetLogger(nil, nsq.LogLevelError)
+	defer prod.Stop()
+	log.SetOutput(io.Discard)
+	msgs := []string{`{"status":"200"}`, `{"status":200}`, `{"status":200.0}`, `{"status":"abc"}`, `{"status":"1.5"}`, `{"status":1.5}`, `{"status":100}`, `{"status":"1e2"}`, `{"status":"100"}`,
+		`{"status":true}`, `{"status":null}`, `{"other":1,"x":"y"}`, `{"status":"200","x":[1,2],"y":{"z":1}}`, `{"status":200,"x":7.25}`, `not json`, `[1,2]`, `"status"`}
+	cases := 0
+	for _, field := range []string{"", "status"} {
+		for _, value := range []string{"", "200", "abc", "1.5", "1e2"} {
+			if field == "" && value != "" {
+				continue
+			}
+			for _, wl := range [][]string{nil, {"status"}, {"status", "x"}} {
+				*requireJSONField, *requireJSONValue = field, value
+				whitelistJSONFields = wl
+				num, numErr := strconv.ParseFloat(value, 64)
+				for mi, raw := range msgs {
+					cases++
+					srv.Script(nil)
+					ph := &PublishHandler{addresses: []string{srv.Addr()}, producers: map[string]*nsq.Producer{srv.Addr(): prod}, mode: ModeRoundRobin, hostPool: hostpool.New([]string{srv.Addr()}),
+						respChan: make(chan *nsq.ProducerTransaction, 1), perAddressStatus: map[string]*timer_metrics.TimerMetrics{srv.Addr(): timer_metrics.NewTimerMetrics(0, "")}, timermetrics: timer_metrics.NewTimerMetrics(0, "")}
+					go ph.responder()
+					ch := make(chan string, 2)
+					m := nsq.NewMessage(nsq.MessageID{byte('a' + mi)}, []byte(raw))
+					m.Delegate = recDelegate{ch: ch}
+					err := ph.HandleMessage(m, "dst")
+					verdict := ""
+					if err != nil && !m.IsAutoResponseDisabled() {
+						verdict = "REQ"
+					} else if err == nil && !m.IsAutoResponseDisabled() {
+						verdict = "FIN"
+					} else {
+						select {
+						case verdict = <-ch:
+						case <-time.After(1500 * time.Millisecond):
+							verdict = "NONE"
+						}
+					}
+					close(ph.respChan)
+					res.Evaluations++
+					// ---- the reference
+					filtering := field != "" || len(wl) > 0
+					var js map[string]interface{}
+					isObj := json.Unmarshal([]byte(raw), &js) == nil && js != nil
+					pass, wantVerdict := true, "FIN"
+					switch {
+					case !filtering:
+					case !isObj:
+						pass = false
+					case field != "":
+						v, ok := js[field]
+						switch {
+						case !ok:
+							pass = false
+							if value != "" {
+								wantVerdict = "REQ" // (the tool backs off: "missing field to check required value")
+							}
+						case value == "":
+						default:
+							if sv, isStr := v.(string); isStr {
+								pass = sv == value
+							} else if fv, isNum := v.(float64); isNum && numErr == nil {
+								pass = fv == num
+							} else {
+								pass = false
+							}
+						}
+					}
+					acc, _ := srv.Records()
+					desc := fmt.Sprintf("require-json-field=%q require-json-value=%q whitelist=%v message %s", field, value, wl, raw)
+					sig := func(what string) string { return "C20 nsq_to_nsq filter " + what + " :: nsq_to_nsq filters" }
+					if verdict != wantVerdict {
+						res.Found = append(res.Found, vx.Found{Sig: sig("answered a message wrongly"), Detail: fmt.Sprintf("%s: answered %s, expected %s", desc, verdict, wantVerdict)})
+					}
+					if pass && len(acc) != 1 {
+						res.Found = append(res.Found, vx.Found{Sig: sig("held back a message that matches"), Detail: fmt.Sprintf("%s: matches the filter, was answered %s, and %d messages reached the destination", desc, verdict, len(acc))})
+					}
+					if !pass && len(acc) != 0 {
+						res.Found = append(res.Found, vx.Found{Sig: sig("let through a message that does not match"), Detail: fmt.Sprintf("%s: does not match, yet %q reached the destination", desc, acc[0])})
+					}
+					if pass && len(acc) == 1 {
+						if len(wl) == 0 {
+							if string(acc[0]) != raw {
+								res.Found = append(res.Found, vx.Found{Sig: sig("modified a message although no whitelist was requested"), Detail: fmt.Sprintf("%s: destination received %q", desc, acc[0])})
+							}
+						} else {
+							var got map[string]interface{}
+							want := map[string]interface{}{}
+							for _, k := range wl {
+								if v, ok := js[k]; ok {
+									want[k] = v
+								}
+							}
+							wb, _ := json.Marshal(want)
+							var wantN map[string]interface{}
+							json.Unmarshal(wb, &wantN)
+							if json.Unmarshal(acc[0], &got) != nil || !reflect.DeepEqual(got, wantN) {
+								res.Found = append(res.Found, vx.Found{Sig: sig("did not whitelist exactly the requested fields"), Detail: fmt.Sprintf("%s: destination received %q, expected the fields %s", desc, acc[0], wb)})
+							}
+						}
+					}
+					res.Outcomes[fmt.Sprintf("nsq_to_nsq filter field=%v value=%v wl=%d => pass=%v %s", field != "", value != "", len(wl), pass, verdict)]++
+				}
+			}
+		}
+	}
+	*requireJSONField, *requireJSONValue = "", ""
+	whitelistJSONFields = nil
+	res.Extra["nsq_to_nsq_filter_cases"] = cases
+	return res
+}
+
 func init() {
 	if os.Getenv("VERIF_HARNESS") == "" {
 		return
@@ -218,7 +341,19 @@ func init() {
 	fs.Bool("part", true, "")
 	shard := fs.Int("shard", -1, "run only configuration number N (mode x destinations)")
 	fs.Parse(os.Args[1:])
-	b, _ := json.Marshal(runN2N(*tier, *shard))
+	r := runN2N(*tier, *shard)
+	if *shard <= 0 {
+		f := runN2NFilters()
+		r.Evaluations += f.Evaluations
+		r.Found = append(r.Found, f.Found...)
+		for k, v := range f.Outcomes {
+			r.Outcomes[k] += v
+		}
+		for k, v := range f.Extra {
+			r.Extra[k] += v
+		}
+	}
+	b, _ := json.Marshal(r)
 	os.Stdout.Write(b)
 	_ = strings.TrimSpace
 	os.Exit(0)
